@@ -8,7 +8,9 @@ and stdout for single files} x flag sets x both directory listing orders (os.wal
 Reference model (inplace_model below): visit order, per-file outcome in {minified, kept, failure}, stop at first failure with non-zero exit.
 Oracle: every file's post-state equals the model's (and is in {pre, api(pre)}; for aliased paths also api(api(pre))); non-target files and
 files after the failing one are byte-identical; the failing file is byte-identical and is the last path listed; exit status != 0 iff a
-failure occurred; no file is created other than --output.  The model is compared with the real run on every case and a subset is
+failure occurred; no file is created other than --output.  Environment answers are part of the alphabet: open() for reading / writing may be
+refused (unreadable / readonly kinds) and a write() may fail after the open succeeded (writefail kind, ENOSPC) - the truncate-then-write window
+of the unchanged tool is a recorded finding.  A module in a declared non-UTF-8 encoding (latin1 kind) must come out as UTF-8.  The model is compared with the real run on every case and a subset is
 repeated through the real executable.
 """
 import itertools
@@ -35,6 +37,7 @@ KINDS = [
     ('unreadable.py', SHRINK), ('readonly.py', SHRINK), ('notes.txt', SHRINK), ('backup.py.bak', SHRINK), ('nosuffix', SHRINK),
     ('stub.pyi', SHRINK), ('cython.pyx', SHRINK), ('UPPER.PY', SHRINK), ('py', SHRINK),
     ('latin1.py', LATIN1),
+    ('writefail.py', SHRINK),       # opens for writing (and is truncated), then the write itself fails: ENOSPC injected
     ('subdir', 'DIR'), ('link.py', 'LINK-FILE'), ('linkdir', 'LINK-DIR'), ('loop', 'LINK-LOOP'), ('dangling.py', 'LINK-DANGLING'),
 ]
 OUTSIDE = 'outside'      # sibling directory holding link targets; never passed as an argument
@@ -112,13 +115,37 @@ class Env(object):
             raise PermissionError(13, 'Permission denied (injected)', str(path))
         if 'readonly' in base and ('w' in mode or 'a' in mode or '+' in mode):
             raise PermissionError(13, 'Permission denied (injected)', str(path))
-        return open(path, mode, *a, **kw)
+        f = open(path, mode, *a, **kw)
+        if 'writefail' in base and ('w' in mode or 'a' in mode or '+' in mode):
+            return FailingWriter(f, str(path))
+        return f
 
     def walk(self, top, topdown=True, onerror=None, followlinks=False):
         for root, dirs, files in self.real_walk(top, topdown=topdown, onerror=onerror, followlinks=followlinks):
             dirs.sort(reverse=self.reverse)
             files.sort(reverse=self.reverse)
             yield root, dirs, files
+
+
+class FailingWriter(object):
+    """a real file opened for writing whose write() answers ENOSPC (the environment's answer is part of the alphabet)"""
+
+    def __init__(self, f, path):
+        self._f = f
+        self._path = path
+
+    def write(self, data):
+        raise OSError(28, 'No space left on device (injected)', self._path)
+
+    def __enter__(self):
+        return self
+
+    def __exit__(self, *exc):
+        self._f.close()
+        return False
+
+    def __getattr__(self, name):
+        return getattr(self._f, name)
 
 
 class OsShim(object):
@@ -171,7 +198,7 @@ def inplace_model(root, args, flags, reverse, pre_files):
         if len(out) > len(data):
             visits.append((path, 'kept'))
             continue
-        if 'readonly' in base:
+        if 'readonly' in base or 'writefail' in base:
             visits.append((path, 'failure'))
             return visits, True, state
         state[rel(path)] = out
@@ -240,6 +267,8 @@ def run_case(entries, argform, flags, reverse, scratch, runner='inprocess'):
             is_target_name = rel_.endswith(('.py', '.pyw'))
             if now != data and not is_target_name:
                 problems.append(('non-python-file-modified', ctx + '\n%s: %r -> %r' % (rel_, data[:80], now[:80])))
+            elif now not in allowed and 'writefail' in rel_:
+                problems.append(('file-corrupted-by-failed-write', ctx + '\n%s: %r -> %r' % (rel_, data[:80], now[:80])))
             elif now not in allowed:
                 problems.append(('file-corrupted', ctx + '\n%s: %r -> %r' % (rel_, data[:80], now[:80])))
             elif not has_loop and runner == 'inprocess' and now != post_model.get(rel_, data):     # the listing order of the real executable is not owned
@@ -266,10 +295,13 @@ FLAGSETS = [[], ['--no-remove-explicit-return-none', '--no-rename-locals', '--no
 
 def trees(maxn):
     loop = [i for i, k in enumerate(KINDS) if k[1] == 'LINK-LOOP'][0]
+    wf = [i for i, k in enumerate(KINDS) if k[0] == 'writefail.py'][0]
     for n in range(1, maxn + 1):
         for combo in itertools.product(range(len(KINDS)), repeat=n):
             if combo.count(loop) > 1:
                 continue        # two self-referencing directory symlinks make os.walk(followlinks=True) visit 2^40 directories
+            if n == maxn and n > 2 and wf in combo:
+                continue        # the failing-write kind is crossed with every other kind in trees of up to maxn-1 entries
             yield combo
 
 
@@ -313,7 +345,7 @@ def run_task(task):
             for i, entries in enumerate(trees(2)):
                 if i % nparts != part:
                     continue
-                if any(KINDS[k][0].startswith(('unreadable', 'readonly')) for k in entries):
+                if any(KINDS[k][0].startswith(('unreadable', 'readonly', 'writefail')) for k in entries):
                     continue        # injected faults exist only in-process
                 r = run_case(entries, 'dir', [], False, scratch, runner='subprocess')
                 if r is None:
@@ -344,8 +376,11 @@ def case(res, entries, argform, flags, reverse, scratch):
         if kind in seen:
             continue
         seen.add(kind)
-        failing = sorted(set(KINDS[k][0] for k in entries if KINDS[k][0].split('.')[0] in ('syntaxerr', 'undecodable', 'unreadable', 'readonly', 'loop', 'dangling')))
-        res.violation('%s:%s:%s' % (kind, argform, '+'.join(failing) or 'no-fault'), {'entries': list(entries), 'argform': argform, 'flags': flags, 'reverse': reverse}, detail)
+        failing = sorted(set(KINDS[k][0] for k in entries if KINDS[k][0].split('.')[0] in ('syntaxerr', 'undecodable', 'unreadable', 'readonly', 'loop', 'dangling', 'writefail')))
+        sig = '%s:%s:%s' % (kind, argform, '+'.join(failing) or 'no-fault')
+        if kind == 'file-corrupted-by-failed-write':
+            sig = kind      # one signature: which other files are around and how the file was named on the command line does not matter
+        res.violation(sig, {'entries': list(entries), 'argform': argform, 'flags': flags, 'reverse': reverse}, detail)
     res.sample({'entries': [KINDS[k][0] for k in entries], 'argform': argform, 'reverse': reverse}, 2)
 
 
@@ -383,7 +418,7 @@ def single_file_case(res, k, mode, scratch):
         ctx = 'file %s mode %s: %r' % (name, mode, o)
         if mode.startswith('output-is-input'):
             a = api(content, [])
-            fails = 'unreadable' in name or 'readonly' in name or a is None
+            fails = 'unreadable' in name or 'readonly' in name or 'writefail' in name or a is None
             want = content if fails or len(a) > len(content) else a
             if now != want:
                 res.violation('output-onto-input-corrupts:' + name, {'single': k, 'mode': mode}, ctx + '\nfile now %r, expected %r' % (now[:100], want[:100]))
@@ -429,7 +464,7 @@ def replay(case_):
         if r and r[0]:
             kind, detail = r[0][0]
             entries = case_['entries']
-            failing = sorted(set(KINDS[k][0] for k in entries if KINDS[k][0].split('.')[0] in ('syntaxerr', 'undecodable', 'unreadable', 'readonly', 'loop', 'dangling')))
+            failing = sorted(set(KINDS[k][0] for k in entries if KINDS[k][0].split('.')[0] in ('syntaxerr', 'undecodable', 'unreadable', 'readonly', 'loop', 'dangling', 'writefail')))
             pre = 'subprocess:' if case_.get('runner') == 'subprocess' else ''
             sig = pre + kind if pre else '%s:%s:%s' % (kind, case_['argform'], '+'.join(failing) or 'no-fault')
             return {'signature': sig, 'detail': detail}
